@@ -239,6 +239,14 @@ impl ToVal for serde_bytes::ByteBuf {
         Val::Bytes(self.to_vec())
     }
 }
+#[derive(serde::Deserialize)]
+#[serde(transparent)]
+struct VecU8(Vec<u8>);
+impl ToVal for VecU8 {
+    fn to_val(&self) -> Val {
+        Val::Bytes(self.0.clone())
+    }
+}
 impl ToVal for U {
     fn to_val(&self) -> Val {
         Val::U(self.clone())
@@ -327,6 +335,8 @@ fn run(doc: &str, t: Target, o: Opt, seq: bool, w: &mut Option<String>) -> Got {
         Target::OptStr => de::<Option<String>>(doc, o, seq, w),
         Target::Unit => de::<()>(doc, o, seq, w),
         Target::Bytes => de::<serde_bytes::ByteBuf>(doc, o, seq, w),
+        Target::VecU8 => de::<VecU8>(doc, o, seq, w),
+        Target::OptVecU8 => de::<Option<VecU8>>(doc, o, seq, w),
         Target::Untyped => de::<U>(doc, o, seq, w),
     }
 }
